@@ -139,3 +139,39 @@ func genSkipRest() {
 	b.WriteString("\n]\n\nend Hertz.Gen.SkipRest\n")
 	write("SkipRest.lean", b.String())
 }
+
+// C10: the statements of HostClient.CloseIdleConnections, in source order, written to lean/Hertz/Gen/CloseIdle.lean.
+// The pool model treats the call as `reap a idle.length` (ALL idle connections leave the pool in one lock region, as a
+// COPY) followed by a `close` per connection outside the lock; Props.C10.close_idle_matches_source pins the text.
+func genCloseIdle() {
+	fset, f := parseFile("pkg/protocol/http1/client.go")
+	fd := findFunc(f, "HostClient", "CloseIdleConnections")
+	var rows []string
+	if fd == nil {
+		rows = append(rows, leanStr("UNTRANSLATED: not found"))
+	} else {
+		var walk func(list []ast.Stmt, depth int)
+		walk = func(list []ast.Stmt, depth int) {
+			for _, st := range list {
+				switch x := st.(type) {
+				case *ast.RangeStmt:
+					rows = append(rows, leanStr(strings.Repeat("  ", depth)+"for "+src(fset, x.Key)+func() string {
+						if x.Value != nil {
+							return ", " + src(fset, x.Value)
+						}
+						return ""
+					}()+" := range "+src(fset, x.X)))
+					walk(x.Body.List, depth+1)
+				default:
+					rows = append(rows, leanStr(strings.Repeat("  ", depth)+src(fset, st)))
+				}
+			}
+		}
+		walk(fd.Body.List, 0)
+	}
+	var b strings.Builder
+	b.WriteString("namespace Hertz.Gen.CloseIdle\n\ndef stmts : List String := [\n  ")
+	b.WriteString(strings.Join(rows, ",\n  "))
+	b.WriteString("\n]\n\nend Hertz.Gen.CloseIdle\n")
+	write("CloseIdle.lean", b.String())
+}
